@@ -442,6 +442,21 @@ example :
     (pstep (fun s a => s == a) pst (.whoami M)).2 = .stranger ∧ pst.log = [] := by
   decide
 
+/-- non-vacuity for the names: `changename` to a name that looks like a hostmask or that somebody
+has is refused, to a free one it succeeds -/
+example :
+    let A : Str := ['n', 'a', '!', 'u', '@', 'h', '.', 'a']
+    let B : Str := ['n', 'b', '!', 'u', '@', 'h', '.', 'b']
+    let alice : Str := ['a', 'l', 'i', 'c', 'e']
+    let bobby : Str := ['B', 'o', 'b']
+    let pw : Str := ['p', 'w', '1']
+    let pst := prun (fun s a => s == a) { st := { db := Db.initial } } [.register A alice pw, .register B bobby pw]
+    (pstep (fun s a => s == a) pst (.changename A alice ['x', '!', 'y', '@', 'z'] pw)).2 = .invalid ∧
+    (pstep (fun s a => s == a) pst (.changename A alice ['b', 'O', 'B'] pw)).2 = .nameTaken ∧
+    (pstep (fun s a => s == a) pst (.changename A alice ['e', 'v', 'e'] pw)).2 = .success ∧
+    pst.st.db.users.map (fun u => u.name) = [alice, bobby] := by
+  decide
+
 /-- non-vacuity for NICK following: alice identifies from `na!u@h.a` and changes her nick to
 `nb`; with the option on the login moves to `nb!u@h.a` (and the log says where the password came
 from), with the option off it stays where it was -/
